@@ -177,7 +177,7 @@ const URIS: [UriKind; 4] = [UriKind::Origin, UriKind::AbsSame, UriKind::AbsOther
 
 pub fn check(rep: &Reporter) {
 	rep.set_rule(&format!(
-		"allow-lists = all lists of 1 or 2 entries over {} patterns (those HostFilterLayer::new accepts) × Host header strings = {} schemes × {} hosts × {} userinfo forms × {} port forms, plus control/non-ASCII values × header multiplicity {{1, 0, 2}} × request-target {{origin form, absolute same authority, absolute other authority, absolute with explicit default port}}. Oracle: independent RFC-3986 authority split + label/port matcher written from the statement; a case is non-trivial when the layer was actually invoked (header constructible); distinct by (list, header, multiplicity, target).",
+		"allow-lists = all lists of 1 or 2 entries (both orders; thorough: also every 3-entry combination) over {} patterns (those HostFilterLayer::new accepts) × Host header strings = {} schemes × {} hosts × {} userinfo forms × {} port forms, plus control/non-ASCII values × header multiplicity {{1, 0, 2}} × request-target {{origin form, absolute same authority, absolute other authority, absolute with explicit default port}}. Oracle: independent RFC-3986 authority split + label/port matcher written from the statement; a case is non-trivial when the layer was actually invoked (header constructible); distinct by (list, header, multiplicity, target).",
 		PATTERNS.len(),
 		SCHEMES.len(),
 		HOSTS.len(),
@@ -193,8 +193,11 @@ pub fn check(rep: &Reporter) {
 	for i in 0..PATTERNS.len() {
 		for j in i + 1..PATTERNS.len() {
 			lists.push(vec![PATTERNS[i], PATTERNS[j]]);
+			lists.push(vec![PATTERNS[j], PATTERNS[i]]);
 			if rep.tier.thorough() {
-				lists.push(vec![PATTERNS[j], PATTERNS[i]]);
+				for k in j + 1..PATTERNS.len() {
+					lists.push(vec![PATTERNS[i], PATTERNS[j], PATTERNS[k]]);
+				}
 			}
 		}
 	}
